@@ -33,6 +33,7 @@ func main() {
 			*timeout = 600
 		}
 	}
+	currentTier = *tier
 	start := time.Now()
 	eng, err := loadEngine(*repo, *verif)
 	if err != nil {
@@ -40,6 +41,7 @@ func main() {
 		os.Exit(3)
 	}
 	eng.loadSecs = time.Since(start).Seconds()
+	eng.tier = *tier
 	switch cmd {
 	case "list":
 		var keys []string
@@ -70,7 +72,15 @@ func main() {
 			if len(cons) == 0 {
 				cons = []*Contract{nil}
 			}
+			var expanded []*Contract
 			for _, con := range cons {
+				if con == nil {
+					expanded = append(expanded, nil)
+				} else {
+					expanded = append(expanded, con.cases()...)
+				}
+			}
+			for _, con := range expanded {
 				if con != nil && con.Inline {
 					continue
 				}
@@ -105,6 +115,10 @@ func main() {
 		}
 		if bad > 0 {
 			os.Exit(1)
+		}
+	case "cands":
+		for _, f := range eng.addrTaken {
+			fmt.Println(f.String(), "|", f.Signature.String(), "| synthetic:", f.Synthetic)
 		}
 	case "loops":
 		for _, name := range fs.Args() {
